@@ -1,0 +1,65 @@
+//go:build verif
+// +build verif
+
+package capacity
+
+import (
+	"massnet.org/mass/poc/engine"
+)
+
+// This file exists only under the build tag "verif": scheduler gates for the plotter goroutine and a
+// read-only snapshot of the keeper's internal bookkeeping, for the conformance harness in /verif.
+
+// VerifGateFn, when set, is called by the plotter goroutine at named points of its loop.  Points "step1"
+// and "step3" are reported while the state lock is held (the callee must not block there); all other points
+// are outside any lock and the callee may block to control the schedule.
+var VerifGateFn func(point string, sid string, wouldMining bool)
+
+func verifGate(point string, sid string, wouldMining bool) {
+	if f := VerifGateFn; f != nil {
+		f(point, sid, wouldMining)
+	}
+}
+
+// VerifSnapshot is the keeper's bookkeeping at one instant.
+type VerifSnapshot struct {
+	ChanLen     int
+	ChanCap     int
+	QueueLen    int
+	PoppedSid   string
+	PoppedMine  bool
+	HasPopped   bool
+	IndexStates map[string][]string // sid -> names of the per-state indexes that contain it
+	InAll       map[string]bool     // sid -> present in the all-states index
+	Using       map[string]bool
+	List        []string // configured list, in order
+}
+
+// VerifSnap reads the bookkeeping.  It takes the state lock for reading unless nolock is set (the caller then
+// guarantees that nothing runs concurrently).
+func VerifSnap(sk *SpaceKeeper, nolock bool) VerifSnapshot {
+	if !nolock {
+		sk.stateLock.RLock()
+		defer sk.stateLock.RUnlock()
+	}
+	s := VerifSnapshot{ChanLen: len(sk.newQueuedWorkSpaceCh), ChanCap: cap(sk.newQueuedWorkSpaceCh), QueueLen: sk.queue.Size(),
+		IndexStates: map[string][]string{}, InAll: map[string]bool{}, Using: map[string]bool{}}
+	if p := sk.queue.PoppedItem(); p != nil {
+		s.HasPopped, s.PoppedSid, s.PoppedMine = true, p.ws.id.String(), p.wouldMining
+	}
+	if len(sk.workSpaceIndex) > int(allState) {
+		for st := engine.FirstState; st <= engine.LastState; st++ {
+			for sid := range sk.workSpaceIndex[st].Items() {
+				s.IndexStates[sid] = append(s.IndexStates[sid], st.String())
+			}
+		}
+		for sid, ws := range sk.workSpaceIndex[allState].Items() {
+			s.InAll[sid] = true
+			s.Using[sid] = ws.using
+		}
+	}
+	for _, ws := range sk.workSpaceList {
+		s.List = append(s.List, ws.id.String())
+	}
+	return s
+}
